@@ -273,3 +273,17 @@ Example C09_example_accepted_wire_fencing :
   r_status R = ACC /\ orders (r_path R) = [0; 1; 3; 2; 5] /\
   wf_nframes 2 4 (orders (r_path R)) = 2%nat.
 Proof. vm_compute. repeat split; reflexivity. Qed.
+
+(* a concrete accepted [0-] move in a permeability set-up with lambda_minus_one = 0 (a number,
+   not "absent"): ensemble (0, 2, 4), start condition L or R, old path -1 2 3 2 -1, both
+   trajectories return below lambda_-1 without reaching lambda_0 = 4.  The L -> L path is
+   accepted, installed by run_md and carries the weight vector (1,); the hypotheses of
+   C09_acc_own_weight_shoot_minus hold with l = 0 = e_i0 *)
+Example C09_example_minus_lambda_minus_one_zero :
+  let e := mkE 0 2 4 true true Msh 100 false None 2 in
+  let old := mkP [mkF (-1) 0 false 0%nat; mkF 2 1 false 0%nat; mkF 3 2 false 0%nat;
+                  mkF 2 3 false 0%nat; mkF (-1) 4 false 0%nat] 100%nat 0 in
+  let s := mkS [0#1; 1#2]%Q [] [[1; -2]; [1; -2]] 0%nat in
+  let '(r, kept, w) := run_md true e old false s [4; 9] [Msh; Msh; Msh] (Some 0) None true in
+  r_status r = ACC /\ orders kept = [-2; 1; 2; 1; -2] /\ w = Some [1].
+Proof. vm_compute. repeat split; reflexivity. Qed.
